@@ -981,8 +981,14 @@ func (j *c05Judge) run(recv c05Recv, calls []c05Call) {
 			// comparison (C05.run_code_eq_exact), so the model under the total exact oracle must give this very outcome
 			ctx.Add("rfn.runi", impl, rw, c05Wires(calls))
 			ctx.Tag("bridge:integers-only(runi)")
+		} else if c05TextAgrees(recv, calls) {
+			// slice d05b: some non-integer, but every two numbers of the input are compared by Value.Equals exactly as
+			// by Cmp (the decidable condition D05b.textFree, evaluated here on the real code): the model under the
+			// total exact oracle must give this very outcome too (C05.refine_code_eq_exact_textfree)
+			ctx.Add("rfn.runi", impl, rw, c05Wires(calls))
+			ctx.Tag("bridge:text-free-non-integer(runi)")
 		} else {
-			ctx.Tag("bridge:some-non-integer")
+			ctx.Tag("bridge:text-dependent")
 		}
 	}
 	if j.allSteps && ctx.R.Intn(3) == 0 {
@@ -1460,6 +1466,12 @@ func runC05(ctx *Ctx) {
 	c05d05Integers(ctx, rnd)
 	c05d05Chains(ctx, rnd, &scope)
 	c05d05RawUnknown(ctx, rnd, &scope)
+
+	// ---------- (b'') slice d05b: non-integer text-free cases (the bridge), far-side infinities, known collections
+	// whose length is a range
+	c05d05bFractions(ctx, rnd)
+	c05d05bFarInfinity(ctx, rnd, &scope)
+	c05d05bKnownLengths(ctx, rnd, &scope)
 
 	// ---------- (c) prefixes
 	c05Prefixes(ctx, &scope)
